@@ -1,6 +1,7 @@
 import Gomjml.Core.ClassAttr
 import Gomjml.Core.ClassMerge
 import Gomjml.Core.SmallPure
+import Gomjml.Core.WrapDeliver
 import Driver.MixP
 import Driver.TagP
 /-! driver sub-protocol `classattr <css> <n> <part>×n <entry>…` (hex, `-` = empty); entry = `<class>:<prop>=<val>,<prop>=<val>…`
@@ -71,3 +72,18 @@ def handle (args : List String) : String :=
     if a == "css-class" then sh (cssJoined m.2) else sh ((get m.1 a).getD ""))
 
 end Driver.ClsM
+
+/-! `textdeliver <hex content>`: what the XML layer hands the renderer for the content of an mj-text according to the Models
+    (the entity pre-pass `Passes.entities`, `Lines.wrapInner`, then the CDATA reader `Lines.dec`): hex of the text, `-` for empty, `none` if the reader rejects -/
+namespace Driver.TxD
+open Driver.MixP (unhex hexOrDash)
+
+def handle (args : List String) : String :=
+  match args with
+  | [h] =>
+    match Gomjml.Lines.dec (Gomjml.Lines.wrapInner (Gomjml.Passes.entities (unhex h))) with
+    | some t => hexOrDash t
+    | none => "none"
+  | _ => "bad-request"
+
+end Driver.TxD
